@@ -53,7 +53,9 @@ MustAccept(P, a) == a.alter \in SameSig /\ NonceHigher(P, a.ident, a.nonce) /\ ~
 AuthAsserts(P, a, r) ==
     /\ A("auth", "altered request must be refused", a.alter \notin SameSig => Refused(r))
     /\ A("auth", "correctly signed fresh request must be accepted", MustAccept(P, a) => ~Refused(r))
-    /\ A("nonce", "nonce decision", a.alter \in SameSig => NonceDecisionOK(P, a.ident, a.nonce, ~Refused(r)))
+    /\ A("nonce", "request honoured although its nonce is not above the last accepted / not fresh",
+         (a.alter \in SameSig /\ ~Refused(r)) => NonceHigher(P, a.ident, a.nonce) /\ ~NonceMustStale(P, a.nonce))
+    /\ A("noncefull", "nonce decision", a.alter \in SameSig => NonceDecisionOK(P, a.ident, a.nonce, ~Refused(r)))
     /\ A("exact", "refusal class", Refused(r) => r.err = AuthErr(a))
     \* C06: the owner is refused for its nonce although the nonce is above every
     \* accepted one and fresh - and an earlier *refused* request carried a nonce >= it
@@ -61,18 +63,25 @@ AuthAsserts(P, a, r) ==
          (MustAccept(P, a) /\ Refused(r) /\ r.err = "verify:nonce")
             => ~\E b \in Get(P.burn, a.ident, {}) : b >= a.nonce)
 
-\* a refused request changes nothing (C06): the whole projection must be that
-\* of the unchanged state, and no agent may have been called
+\* a refused request changes nothing (C06): the whole projection must be the
+\* one logged before the request, and no agent may have been called
+Unchanged(ln) ==
+    LET prev == Trace[l - 1].st  st == ln.st IN
+    /\ A("refused", "refused request changed a node record", st.node = prev.node)
+    /\ A("refused", "refused request changed a peer relation", st.peers = prev.peers)
+    /\ A("refused", "refused request changed a balance", st.bal = prev.bal /\ st.acct = prev.acct /\ st.stats = prev.stats)
+    /\ A("refused", "refused request changed a wallet link", st.link = prev.link /\ st.anodes = prev.anodes)
+    /\ A("refused", "refused request changed the host registrations", st.numremotes = prev.numremotes)
+    /\ A("refused", "refused request made the pool instruct an agent", Len(st.calls) = 0)
+    /\ A("refused", "refused request paid or changed a deposit", st.paid = prev.paid /\ st.dep = prev.dep)
+
 RefusedStep(P, a, ln) ==
-    /\ A("refused", "refused request changed nodes", ObsNodes(P, ln.st))
-    /\ A("refused", "refused request changed peers", ObsPeers(P, ln.st))
-    /\ A("refused", "refused request changed balances", ObsBals(P, ln.st) /\ ln.st.stats.credit = TotalCredit(P))
-    /\ A("refused", "refused request changed links", ObsLinks(P, ln.st))
-    /\ A("refused", "refused request changed host registrations", ln.st.numremotes = NumRemotes(P))
-    /\ A("refused", "refused request made the pool call an agent", Len(ln.st.calls) = 0)
-    /\ A("refused", "refused request paid", \A w \in DOMAIN ln.st.paid : ln.st.paid[w] = Get(P.paid, w, 0))
+    /\ Unchanged(ln)
     /\ NoCalls(ln.st)
     /\ PFinish([P EXCEPT !.burn = Put(P.burn, a.ident, Get(P.burn, a.ident, {}) \cup {a.nonce})], ln)
+
+\* a request that is not authentic must leave no trace even if the code let it through
+NotAuthentic(a, r, ln) == (a.alter \notin SameSig /\ ~Refused(r)) => Unchanged(ln)
 
 Accepted1(P, a) == [AuthF(P, a, TRUE).st EXCEPT !.burn = Put(P.burn, a.ident, {})]
 
@@ -88,6 +97,7 @@ ConnectStep(ln, a0) ==
         low == ~r.ok /\ r.err = "lowbalance"
         e  == ConnectF(P1, a, uri, low)
     IN /\ AuthAsserts(S, a, r)
+       /\ NotAuthentic(a, r, ln)
        /\ IF Refused(r) THEN RefusedStep(S, a, ln)
           ELSE /\ A("uri", "stored node uri", a.full => uri = norm)
                /\ A("lowbal", "connect refusal for balance", low = LowAtConnect(P1, a, uri))
@@ -101,6 +111,7 @@ UpdateStep(ln) ==
         a  == [ln.a EXCEPT !.peers = ToSet(ln.a.peers)]
         P1 == Accepted1(S, a)
     IN /\ AuthAsserts(S, a, r)
+       /\ NotAuthentic(a, r, ln)
        /\ IF Refused(r) THEN RefusedStep(S, a, ln)
           ELSE IF ~Has(P1.node, a.ident)
           THEN /\ A("exact", "update of unregistered node", SameRes(r, Err("unregistered")))
@@ -119,6 +130,7 @@ UpdateStep(ln) ==
              /\ A("lowbal", "disconnect instructions",
                   IF low THEN CallSet(ln.st) = e.calls /\ Len(ln.st.calls) = Cardinality(e.calls)
                   ELSE Len(ln.st.calls) = 0)
+             /\ A("billing", "balances after keep-alive", ObsBals(e.st, ln.st))
              /\ A("billing", "balance in update reply",
                   r.ok => /\ r.val.balance.account = e.res.val.balance.account
                           /\ r.val.balance.credit = e.res.val.balance.credit
@@ -151,6 +163,7 @@ PeerStep(ln, a, P0) ==
 SignedPeerStep(ln) ==
     LET a == ln.a  r == ln.r  P1 == Accepted1(S, a) IN
     /\ AuthAsserts(S, a, r)
+    /\ NotAuthentic(a, r, ln)
     /\ IF Refused(r) THEN RefusedStep(S, a, ln) ELSE PeerStep(ln, a, P1)
 
 \* legacy vipnode_client = connect as light client, then ask for hosts (default 3)
@@ -163,6 +176,7 @@ ClientStep(ln) ==
         e  == ConnectF(P1, ca, "", low)
         pa == [a EXCEPT !.num = IF a.num > 0 THEN a.num ELSE 3]
     IN /\ AuthAsserts(S, a, r)
+       /\ NotAuthentic(a, r, ln)
        /\ IF Refused(r) THEN RefusedStep(S, a, ln)
           ELSE /\ A("lowbal", "legacy client refusal for balance", low = LowAtConnect(P1, ca, ""))
                /\ IF low THEN NoCalls(ln.st) /\ PFinish(e.st, ln)
@@ -175,6 +189,7 @@ HostStep(ln) ==
 AddNodeStep(ln) ==
     LET a == ln.a  r == ln.r  P1 == Accepted1(S, a)  e == AddNodeF(P1, a) IN
     /\ AuthAsserts(S, a, r)
+    /\ NotAuthentic(a, r, ln)
     /\ IF Refused(r) THEN RefusedStep(S, a, ln)
        ELSE /\ A("links", "addNode result", SameRes(r, e.res))
             /\ NoCalls(ln.st)
@@ -185,6 +200,7 @@ WithdrawStep(ln) ==
         outcome == IF r.ok THEN "ok" ELSE IF r.err = "wmin" THEN "wmin" ELSE "settle"
         e == WithdrawF(P1, a, outcome)
     IN /\ AuthAsserts(S, a, r)
+       /\ NotAuthentic(a, r, ln)
        /\ IF Refused(r) THEN RefusedStep(S, a, ln)
           ELSE /\ A("withdraw", "withdrawal outcome", outcome = WithdrawOutcome(P1, a) /\ SameRes(r, e.res))
                /\ A("withdraw", "amount paid / balance reported", outcome \in {"ok", "wmin"} => r.val = e.res.val)
